@@ -113,10 +113,12 @@ func short(id string) string {
 func TestC38(t *testing.T) {
 	r := vlib.Start(t, "C38", vlib.LevelExploration)
 	defer r.Finish()
-	r.SetRule("round = one isaac.ProposalMaker of the local node over a real TempPool (proposal pool + operation pool feeding getOperations through OperationHashes with limit 3..10, as launch/p_proposal_maker.go wires it; the pool holds facts signed several times, interleaved), 1..3 positions (point, previous block), 2..12 goroutines issuing 8..32 Make/PreferEmpty calls per position at once while another goroutine adds operations; lastBlockMap is absent, or one block below the positions so that matching, non-matching and unreachable positions occur; distinct = fingerprint of the observed order of call/return events per round (only rounds where calls overlapped); every answer for a position is compared with the first one and with ProposalByPoint afterwards. history = one ProposalMaker over the same kind of pool while the last block moves through H, H+1, ... (clean depth + 2 or more heights): per height the node proposes for the next height (round 0, sometimes further rounds / another previous block) and sometimes one or two heights ahead, sometimes a proposal of another node for a height ahead is stored, the operation pool changes; the pool's own cleanup step (hook H4b: clean proposals, clean ballots, the real depth rule) runs after every proposing step and after every saved block, sometimes concurrently with the requests; after each of these points every position already answered and still judged is asked again (a position expired by the depth rule is asked once more, at the height just below the judged ones) from 2..5 goroutines through Make and PreferEmpty; all answers ever returned for a position must be the same signed proposal and ProposalByPoint must return it, except that a position at or below (newest proposal height in the pool - clean depth) at the time of a cleanup is not judged any more; refusals ('too old') are not answers; distinct history = fingerprint of its steps with per-step numbers of asked / judged / judged-after-cleanup / refused / expired answers (only histories with judged answers after a cleanup)")
+	r.SetRule("round = one isaac.ProposalMaker of the local node over a real TempPool (proposal pool + operation pool feeding getOperations through OperationHashes with limit 3..10, as launch/p_proposal_maker.go wires it; the pool holds facts signed several times, interleaved), 1..3 positions (point, previous block), 2..12 goroutines issuing 8..32 Make/PreferEmpty calls per position at once while another goroutine adds operations; lastBlockMap is absent, or one block below the positions so that matching, non-matching and unreachable positions occur; distinct = fingerprint of the observed order of call/return events per round (only rounds where calls overlapped); every answer for a position is compared with the first one and with ProposalByPoint afterwards. history = one ProposalMaker over the same kind of pool while the last block moves through H, H+1, ... (clean depth + 2 or more heights): per height the node proposes for the next height (round 0, sometimes further rounds / another previous block) and sometimes one or two heights ahead, sometimes a proposal of another node for a height ahead is stored, the operation pool changes; the pool's own cleanup step (hook H4b: clean proposals, clean ballots, the real depth rule) runs after every proposing step and after every saved block, sometimes concurrently with the requests; after each of these points every position already answered and still judged is asked again (a position expired by the depth rule is asked once more, at the height just below the judged ones) from 2..5 goroutines through Make and PreferEmpty; all answers ever returned for a position must be the same signed proposal and ProposalByPoint must return it, except that a position at or below (newest proposal height in the pool - clean depth) at the time of a cleanup is not judged any more; refusals ('too old') are not answers; distinct history = fingerprint of its steps with per-step numbers of asked / judged / judged-after-cleanup / refused / expired answers (only histories with judged answers after a cleanup). staggered = one position, one ProposalMaker over the real TempPool behind wrappers of everything the maker calls (pool read, operations getter, signing key of the local node, pool write), callers arriving as a stream: the caller which is inside the maker is held inside one of these callbacks (channel handshake; which callback is drawn per caller) while the next batch of 0..4 callers (Make / PreferEmpty drawn per caller) arrives and is seen blocked inside the maker (goroutine state) or inside a callback of its own; then the held call fails (one failure kind per case: operations-getter-error, context-cancelled, pool-read-error, pool-write-error-before-write, pool-write-error-after-write, signing-refused) or succeeds, the next caller served is held in turn while the next batch arrives, and so on; batches with nobody inside are plain repetition (fail, fail, succeed / succeed, fail, succeed); directed cases: first caller fails with each kind while k wait and m arrive during the next service, repetition cases per kind, random streams of 2..5 batches; two closing calls (Make, PreferEmpty); all proposals returned without error must be the same signed proposal, at most one local proposal may be written to the pool for the position and ProposalByPoint must return the one handed out; failed calls are not answers; distinct staggered case = its descriptor (failure kind, arrivals per batch, entry point / fate / holding callback per caller, last block map, when an operation is added), the observed order of arrivals, holds and returns is counted in staggered_schedules_seen")
 	r.Assume("history phase: a position whose height is <= newest proposal height in the pool - clean depth (VerifCleanDepths) when a cleanup runs is expired by the documented depth rule; what the maker answers for it afterwards is counted, not judged")
 	r.Assume("no position lies more than one block below the last block map (Make answers 'too old' there by design)")
 	r.Assume("fault phase (beyond the property's quantifier, which has no faults): single ProposalByPoint / SetProposal / Proposal calls of the pool given to the maker fail once with a transient error, before or after reaching the real TempPool; an error answer of Make/PreferEmpty is accepted, all successful answers for one position must still be the same signed proposal and the real pool must agree")
+
+	r.Assume("staggered phase (failures are beyond the property's quantifier; the statement excludes nothing about errors): calls of the operations getter, of the pool and of the local node's signing key made by a caller may fail once with a transient error or after the caller's context was cancelled; an error answer is accepted, whether a just launched caller is blocked inside the maker is read from the goroutine state (observation only, bounded wait, counted as not confirmed otherwise)")
 
 	g := newRig()
 	const workers = 4
@@ -129,14 +131,20 @@ func TestC38(t *testing.T) {
 	// 0.1-0.9 s of CPU, so rounds are few.
 	rounds := r.N(48, 480)
 	histories := r.N(2, 16)
+	specs := stSpecs(r)
+	specOrder := staggeredOrder(specs)
 	r.WithWatchdog(time.Duration(r.N(30, 180))*time.Minute, "C38 workload", func() {
 		// NOTE the histories are the longest cases: first
-		vlib.Parallel(histories+rounds, workers, func(i int) {
+		vlib.Parallel(histories+len(specs)+rounds, workers, func(i int) {
 			sl := <-slots
-			if i < histories {
+			switch {
+			case i < histories:
 				history(r, g, sl, i)
-			} else {
-				round(r, g, sl, i-histories)
+			case i < histories+len(specs):
+				ci := specOrder[i-histories]
+				staggered(r, g, sl, ci, specs[ci])
+			default:
+				round(r, g, sl, i-histories-len(specs))
 			}
 			slots <- sl
 		})
@@ -149,6 +157,9 @@ func TestC38(t *testing.T) {
 	}
 	if r.Counter("history_answers_judged_after_pool_cleanup") == 0 || r.Counter("history_cleanups_which_removed_proposals") == 0 {
 		r.Inconclusive("no history in which a position was answered again after a pool cleanup that removed proposals")
+	}
+	if r.Counter("staggered_arrivals_confirmed_blocked_inside_maker") == 0 || r.Counter("staggered_failed_holder_with_waiters_then_arrivals_while_next_is_served") == 0 {
+		r.Inconclusive("staggered phase: no case in which a caller held inside the maker failed while others were seen waiting and further callers arrived while the next one was served")
 	}
 	if r.Counter("proposals_with_operations") == 0 {
 		r.Inconclusive("no proposal with operations was observed")
